@@ -107,7 +107,9 @@ fn tracker_schedule() {
         Att { pos: pc, rule: rc, succ: sc, positive: pol_c, leaf: true, made: with_c },
         Att { pos: pd, rule: rd, succ: sd, positive: true, leaf: true, made: with_d },
     ];
-    let (fin, _map) = tr.finish();
+    let (fin, map) = tr.finish();
+    let (pos_v, neg_v, _) = stubs::attempts_of(&map);
+    core::mem::forget(map);
     let fp = fin.pos();
     // (i) the location is the initial position or the position of a leaf attempt, and no leaf attempt lies beyond it
     let mut maxp = p_init;
@@ -121,7 +123,7 @@ fn tracker_schedule() {
     assert!(fp == maxp, "reported location is not the furthest leaf attempt");
     assert!(fp <= NPOS && fp >= p_init);
     // (ii)+(iii)+(iv) truthfulness, both directions
-    let (pos_list, neg_list): (&[R], &[R]) = unsafe { (&stubs::T1_SLOT.0, &stubs::T1_SLOT.1) };
+    let (pos_list, neg_list): (&[R], &[R]) = (&pos_v, &neg_v);
     let mut r = 0u8;
     while r < 3 {
         let rule = rule_of(r);
@@ -163,7 +165,10 @@ fn polarity_restored() {
     if n1 { tr.negative_during(inner) } else { tr.positive_during(inner) };
     // a failing leaf attempt now must be recorded as *expected* (polarity is positive again)
     let _ = tr.record_during_with(at(1), |_| None::<()>, R::Y);
-    let (pos_list, neg_list): (&[R], &[R]) = unsafe { (&stubs::T1_SLOT.0, &stubs::T1_SLOT.1) };
+    let (_fin, map) = tr.finish();
+    let (pos_v, neg_v, _) = stubs::attempts_of(&map);
+    core::mem::forget(map);
+    let (pos_list, neg_list): (&[R], &[R]) = (&pos_v, &neg_v);
     assert!(pos_list.len() == 1 && pos_list[0] == R::Y && neg_list.len() == 0, "polarity not restored after *_during");
     cover!(n1 && !n2, "negative around positive");
 }
@@ -179,11 +184,12 @@ fn special_errors() {
     nd::assume(p1 <= NPOS && p2 <= NPOS);
     tr.empty_stack(Position::new(TEXT, p1).unwrap());
     tr.out_of_bound(Position::new(TEXT, p2).unwrap(), -1, Some(3));
-    let (fin, _m) = tr.finish();
+    let (fin, map) = tr.finish();
+    let (_, _, n) = stubs::attempts_of(&map);
+    core::mem::forget(map);
     let m = if p1 > p_init { p1 } else { p_init };
     let m = if p2 > m { p2 } else { m };
     assert!(fin.pos() == m);
-    let n = unsafe { stubs::T1_SLOT.2.len() };
     let exp = (if p1 == m && p2 <= p1 { 1 } else { 0 }) + (if p2 == m { 1 } else { 0 });
     assert!(n == exp, "special errors kept do not belong to the reported location");
     cover!(n == 2, "both kept");
